@@ -170,6 +170,7 @@ type Contract struct {
 	MaintainsScope map[string][]string          // optional property scope of a maintains clause
 	Reveal         []string                     // opaque spec functions whose definition is used here
 	GroundUnfold   []string
+	CallbackParams []string
 	Assumes        []*Clause // assumed (unverified) postconditions
 	Conceal        []string                     // spec functions whose definition is NOT used in this contract\'s queries
 	Callbacks      map[string]*LoopSpec         // invariants over captured variables across calls that take a closure ("callback callee: invariant E")
@@ -974,7 +975,7 @@ var clauseKeywords = map[string]bool{
 	"maypanic": true, "assigns": true, "loop": true, "inline": true, "trusted": true,
 	"pure": true, "type": true, "spec": true, "unfold": true, "axiom": true, "extern": true,
 	"iface": true, "lemma": true, "let": true, "assert": true, "assume": true, "level": true,
-	"package": true, "nobody": true, "call": true, "defines": true, "global": true, "maintains": true, "purefn": true, "purecalls": true, "import": true, "assumes": true, "callback": true, "groundunfold": true, "opaque": true, "reveal": true, "uses": true, "conceal": true,
+	"package": true, "nobody": true, "call": true, "defines": true, "global": true, "maintains": true, "purefn": true, "purecalls": true, "import": true, "callbackparam": true, "assumes": true, "callback": true, "groundunfold": true, "opaque": true, "reveal": true, "uses": true, "conceal": true,
 }
 
 type rawClause struct {
@@ -1167,6 +1168,13 @@ func ParseSpecText(text, path string, goFile bool) (*SpecFile, error) {
 					}
 				}
 			}
+		case "callbackparam":
+			// a function-typed parameter the function only calls: each call increments the ghost
+			// counter $ncalls (its first argument is $call($ncalls))
+			if cur == nil {
+				return nil, fmt.Errorf("%s:%d: callbackparam outside contract", path, rc.line)
+			}
+			cur.CallbackParams = append(cur.CallbackParams, strings.Fields(rc.text)...)
 		case "groundunfold":
 			// spec functions whose definition is instantiated on ground terms only (no quantified
 			// definitional axiom: avoids matching loops for recursion on an integer argument)
